@@ -140,20 +140,40 @@ def classify_borrow(body, bb, idx, s):
     return "mut", cons
 
 
+def bundle_escape(F, body, r):
+    """reference local r is stored in a field of a private struct of the crate that this body returns (a bundle of buffer references
+    handed back to the caller): the field name, else None"""
+    al = ref_aliases(body, r)
+    for i in body.live_blocks():
+        for s in body.stmts(i):
+            if s["k"] == "assign" and s["rv"]["k"] == "agg" and s["rv"].get("agg") == "adt" and s["rv"].get("fields") and \
+                    (s["rv"].get("adt") or "").startswith(CR + "::"):
+                hit = [f for o, f in zip(s["rv"]["ops"], s["rv"]["fields"]) if op_local(o) in al]
+                if not hit:
+                    continue
+                l = s["lhs"]["l"]
+                if s["lhs"].get("p"):
+                    continue
+                if l == 0 or any(x[0] == "agg" and x[1] == s["rv"].get("adt") for x in Prov(body).local(0)):
+                    return hit[0]
+    return None
+
+
 def pos_dominates(body, dom, a, b):
     if a[0] == b[0]:
         return a[1] < b[1]
     return b[0] in dom and a[0] in dom[b[0]]
 
 
-def param_uses(body, p):
-    """uses of a `&mut Buffer` parameter local p inside body: list of Use (reset / forward / mut)"""
+def param_uses(body, p, field=None):
+    """uses of a `&mut Buffer` parameter local p (or of the buffer reference in field `field` of a by-value bundle parameter p) inside
+    body: list of Use (reset / forward / mut)"""
     pr = Prov(body)
     out = []
     for c in body.calls():
         for ai, a in enumerate(c.args):
             o = pr.operand(a)
-            if any(x[0] == "arg" and x[1] == p and not x[2] for x in o):
+            if any(x[0] == "arg" and x[1] == p and (x[2] == (field,) if field else not x[2]) for x in o):
                 kind = "reset" if (ai == 0 and c.name in RESET_NAMES) else "mut"
                 u = Use(body, c.bb, len(body.stmts(c.bb)), kind)
                 u.call, u.argidx = c, ai
@@ -175,7 +195,7 @@ def uses_clean(F, body, uses, depth=3):
             subs = [sb for sb in local_callee_bodies(F, c) if sb.crate == CR]
             ok_all = bool(subs)
             for sb in subs:
-                pu = param_uses(sb, u.argidx + 1)
+                pu = param_uses(sb, u.argidx + 1, getattr(u, "field", None))
                 prs = [x for x in pu if x.kind == "reset"]
                 sdom = sb.dominators()
                 if not prs or not sb.must_pass([x.bb for x in prs]) or any(
@@ -194,7 +214,8 @@ def uses_clean(F, body, uses, depth=3):
         c = getattr(u, "call", None)
         if c is not None and depth > 0:
             subs = [sb for sb in local_callee_bodies(F, c) if sb.crate == CR]
-            if subs and all(not uses_clean(F, sb, param_uses(sb, u.argidx + 1), depth - 1) and param_uses(sb, u.argidx + 1) for sb in subs):
+            fld_ = getattr(u, "field", None)
+            if subs and all(not uses_clean(F, sb, param_uses(sb, u.argidx + 1, fld_), depth - 1) and param_uses(sb, u.argidx + 1, fld_) for sb in subs):
                 # callee resets before its own first use; but it may leave it dirty: fine, next user resets first too
                 continue
         # (b) reset after use on every path
@@ -361,6 +382,24 @@ def run(ctx, only_fields=None, rule_prefix="R14"):
             # mutable borrows handed to callees become param-level obligations
             enriched = []
             for u in bus:
+                fld = bundle_escape(F, b, u.local) if u.kind == "mut" and not getattr(u, "cons", None) and u.local is not None else None
+                if fld is not None:
+                    # the borrow leaves this body inside a returned bundle: the obligation moves to whoever the caller hands the bundle to
+                    n_moved = 0
+                    for cb_ in bodies:
+                        for c_ in cb_.calls():
+                            if b not in local_callee_bodies(F, c_) or c_.dest.get("p"):
+                                continue
+                            moved = []
+                            for cb2, t2, ai2 in ref_consumer_calls(cb_, c_.dest["l"]):
+                                uu = Use(cb_, cb2, len(cb_.stmts(cb2)), "mut")
+                                uu.call, uu.argidx, uu.field = CallSite(cb_, cb2, t2), ai2, fld
+                                moved.append(uu)
+                            n_moved += len(moved)
+                            bad_all += uses_clean(F, cb_, moved)
+                    if n_moved:
+                        how.append("%s: returned in a bundle (.%s), %d consumer(s)" % (b.name, fld, n_moved))
+                        continue
                 if u.kind == "mut" and getattr(u, "cons", None):
                     for cb, t, ai in u.cons:
                         uu = Use(b, cb, len(b.stmts(cb)), "mut")
